@@ -767,15 +767,15 @@ Proof.
 Qed.
 
 Ltac le_step :=
-  first
-  [ apply le_refl
-  | apply le_props
-  | apply le_opt
-  | apply le_bind; [|intros ?]
-  | match goal with
-    | |- le (if ?e then _ else _) _ => destruct e
-    | |- le (match ?e with _ => _ end) _ => destruct e
-    end ].
+  cbv beta;
+  match goal with
+  | |- le ?a ?b => constr_eq a b; apply le_refl
+  | |- le (p_props true ?c) (p_props false ?c) => apply le_props
+  | |- le (p_opt _ _) (p_opt _ _) => apply le_opt
+  | |- le (sbind _ _) (sbind _ _) => apply le_bind; [|intros ?]
+  | |- le (if ?e then _ else _) _ => destruct e
+  | |- le (match ?e with _ => _ end) _ => destruct e
+  end.
 Ltac le_auto := repeat le_step.
 
 Lemma le_connect : le (p5_connect true) (p5_connect false).
@@ -796,10 +796,10 @@ Proof. unfold p5_auth. le_auto. Qed.
 Lemma le_body5 typ flags : le (body5 true typ flags) (body5 false typ flags).
 Proof.
   unfold body5. destruct typ as [|p]; [apply le_refl|].
-  split_pos p 4%nat; try apply le_refl;
-    first [ apply le_connect | apply le_connack | apply le_publish | apply le_disconnect | apply le_auth
+  split_pos p 4%nat;
+    first [ exact le_connect | exact le_connack | exact (le_publish flags) | exact le_disconnect | exact le_auth
           | (apply le_bind; [first [apply le_ack | apply le_codes]|intros ?; apply le_refl])
-          | (apply le_bind; [apply le_refl|intros ?]; apply le_bind; [apply le_props|intros ?]; apply le_refl) ].
+          | le_auto ].
 Qed.
 
 Lemma frame_mono d r : frame true d = Some r -> frame false d = Some r.
